@@ -138,11 +138,35 @@ func runC19(r *kit.Run) {
 		r.Eval()
 		panicked, pv, pst := kit.Guard(func() {
 			h := hdrhist.New(shape.Min, shape.Max, shape.Sig)
+			// duplicates are recorded partly through RecordValues(v, n)
+			counts := map[int64]int64{}
+			var order []int64
 			for _, v := range vals {
-				if err := h.RecordValue(v); err != nil {
-					viol("RecordValue/in-range-rejected", fmt.Sprintf("RecordValue(%d) with range [%d,%d] sigfigs %d: %v", v, shape.Min, shape.Max, shape.Sig, err))
-					return
+				if counts[v] == 0 {
+					order = append(order, v)
 				}
+				counts[v]++
+			}
+			useMulti := rng.IntN(2) == 0
+			for _, v := range order {
+				n := counts[v]
+				if useMulti && n > 1 {
+					if err := h.RecordValues(v, n-1); err != nil {
+						viol("RecordValue/in-range-rejected", fmt.Sprintf("RecordValues(%d,%d) with range [%d,%d] sigfigs %d: %v", v, n-1, shape.Min, shape.Max, shape.Sig, err))
+						return
+					}
+					n = 1
+				}
+				for ; n > 0; n-- {
+					if err := h.RecordValue(v); err != nil {
+						viol("RecordValue/in-range-rejected", fmt.Sprintf("RecordValue(%d) with range [%d,%d] sigfigs %d: %v", v, shape.Min, shape.Max, shape.Sig, err))
+						return
+					}
+				}
+			}
+			// values outside the range may be refused but never break anything
+			for _, out := range []int64{shape.Max*2 + 1, shape.Max + (shape.Max / 2) + 1} {
+				_ = h.RecordValue(out) == nil && func() bool { vals = append(vals, out); return true }()
 			}
 			if h.TotalCount() != int64(len(vals)) {
 				viol("TotalCount/mismatch", fmt.Sprintf("TotalCount()=%d after %d records", h.TotalCount(), len(vals)))
